@@ -360,6 +360,8 @@ func checkC16(c *core.Ctx) {
 	}
 	pkg := p.Bebop()
 	info := pkg.TypesInfo
+	startsCache = map[*types.Func]int{}
+	tokenHelperDecls = func(fn *types.Func) *ast.FuncDecl { return p.Decl(fn) }
 	rf := p.FuncDecl(pkg, "ReadFile")
 	ff := p.FuncDecl(pkg, "format")
 	if rf == nil || ff == nil {
@@ -659,6 +661,7 @@ func checkC16(c *core.Ctx) {
 // brace — silently disappears from the formatted schema.
 func lookaheadPutBack(c *core.Ctx, p *load.Prog) {
 	pkg := p.Bebop()
+	info := pkg.TypesInfo
 	n := 0
 	mentionsConcrete := func(nd ast.Node) bool {
 		found := false
@@ -696,6 +699,15 @@ func lookaheadPutBack(c *core.Ctx, p *load.Prog) {
 					if ifs, ok := st.(*ast.IfStmt); ok {
 						dispatchIf[ifs.Cond] = true
 					}
+				}
+			}
+			return true
+		})
+		breaksOn := map[ast.Expr]bool{}
+		ast.Inspect(fd.Body, func(m ast.Node) bool {
+			if ifs, ok := m.(*ast.IfStmt); ok && ifs.Else == nil && len(ifs.Body.List) == 1 {
+				if br, ok := ifs.Body.List[0].(*ast.BranchStmt); ok && br.Tok == token.BREAK && br.Label == nil {
+					breaksOn[ifs.Cond] = true
 				}
 			}
 			return true
@@ -791,7 +803,149 @@ func lookaheadPutBack(c *core.Ctx, p *load.Prog) {
 			})
 			c.CheckPath("R4c", fmt.Sprintf("%s: lookahead on %s puts the token back when it is something else (#%d)", fd.Name.Name, wire.Canon(be.Y), count), p.Pos(cond.Pos()), ok2,
 				fmt.Sprintf("when the token is not %s, %s before its text is written or tr.UnNext() is called: the token is dropped from the output", wire.Canon(be.Y), why), badPath)
+			// a loop that ends on `if <tok>.kind == K { break }` leaves the loop
+			// holding the token K: it has to be written (as its text or as the
+			// same punctuation) before anything else is taken
+			if be.Op == token.EQL && breaksOn[cond] {
+				okHit := true
+				whyHit := ""
+				var hitPath []string
+				f.reach(b.Succs[1-miss], 0, func(nd ast.Node) bool {
+					if st, isSt := nd.(ast.Stmt); isSt && usesTakenToken(info, st) {
+						return true
+					}
+					if e, isE := nd.(ast.Expr); isE && usesTakenToken(info, &ast.ExprStmt{X: e}) {
+						return true
+					}
+					takes := containsCall(nd, isNext) || containsCall(nd, func(call *ast.CallExpr) bool {
+						cal := load.Callee(info, call)
+						if cal == nil || cal.Pkg() != pkg.Types {
+							return false
+						}
+						sig, _ := cal.Type().(*types.Signature)
+						if sig == nil {
+							return false
+						}
+						for i := 0; i < sig.Params().Len(); i++ {
+							if strings.HasSuffix(sig.Params().At(i).Type().String(), ".tokenReader") {
+								return !startsWithCurrentToken(info, cal)
+							}
+						}
+						return false
+					})
+					if takes {
+						okHit = false
+						whyHit = "the next token is taken at " + p.Pos(nd.Pos())
+						return true
+					}
+					return false
+				}, func(r *ast.ReturnStmt, path []*cfg.Block) {
+					okHit = false
+					hitPath = f.pathString(path)
+					whyHit = "the function returns"
+				})
+				c.CheckPath("R4c", fmt.Sprintf("%s: the %s that ends the loop is written (#%d)", fd.Name.Name, wire.Canon(be.Y), count), p.Pos(cond.Pos()), okHit,
+					fmt.Sprintf("the loop stops on a %s it has already taken; %s before that token is written: what is taken next is written in its place and one token is lost", wire.Canon(be.Y), whyHit), hitPath)
+			}
 		}
+	}
+	// the same for a lookahead written as a switch on the kind of a token taken
+	// by position (`tr.Next(); switch t := tr.Token(); t.kind { … }`): every
+	// clause, the default and the no-clause-matched path must write the token or
+	// put it back; only a clause for the newline token alone may drop it
+	for _, fd := range funcsOfFiles(p, pkg, "format.go") {
+		f := buildCFG(p, pkg, fd)
+		if f == nil {
+			continue
+		}
+		// dispatch switches: direct statements of a `for tr.Next()` body
+		dispatch := map[*ast.SwitchStmt]bool{}
+		ast.Inspect(fd.Body, func(m ast.Node) bool {
+			fs, ok := m.(*ast.ForStmt)
+			if !ok || fs.Cond == nil || !containsCall(fs.Cond, isNext) {
+				return true
+			}
+			for _, st := range fs.Body.List {
+				if sw, ok := st.(*ast.SwitchStmt); ok {
+					dispatch[sw] = true
+				}
+			}
+			return true
+		})
+		k := 0
+		ast.Inspect(fd.Body, func(m ast.Node) bool {
+			sw, ok := m.(*ast.SwitchStmt)
+			if !ok || sw.Tag == nil || dispatch[sw] {
+				return true
+			}
+			sel, ok := ast.Unparen(sw.Tag).(*ast.SelectorExpr)
+			if !ok || sel.Sel.Name != "kind" {
+				return true
+			}
+			// a switch that classifies the current token (every alternative is
+			// formatted) is not a lookahead; one that puts the token back in some
+			// clause is: the other clauses then have to account for the token too
+			if !containsCall(sw.Body, isUnNext) {
+				return true
+			}
+			k++
+			n++
+			check := func(start *cfg.Block, what string) {
+				if start == nil {
+					return
+				}
+				ok2 := true
+				why := ""
+				var badPath []string
+				f.reach(start, 0, func(nd ast.Node) bool {
+					if containsCall(nd, isUnNext) || mentionsConcrete(nd) {
+						return true
+					}
+					if containsCall(nd, isNext) {
+						ok2 = false
+						why = "the next token is taken at " + p.Pos(nd.Pos())
+						return true
+					}
+					return false
+				}, func(r *ast.ReturnStmt, path []*cfg.Block) {
+					ok2 = false
+					badPath = f.pathString(path)
+					why = "the function returns"
+				})
+				c.CheckPath("R4c", fmt.Sprintf("%s: lookahead switch #%d writes the token or puts it back (%s)", fd.Name.Name, k, what), p.Pos(sw.Pos()), ok2,
+					fmt.Sprintf("on the path %s, %s before the token's text is written or tr.UnNext() is called: the token is dropped from the output", what, why), badPath)
+			}
+			hasDefault := false
+			for _, cl := range sw.Body.List {
+				cc := cl.(*ast.CaseClause)
+				what := "default"
+				if cc.List != nil {
+					var ks []string
+					for _, e := range cc.List {
+						ks = append(ks, wire.Canon(e))
+					}
+					what = "case " + strings.Join(ks, ",")
+					if len(ks) == 1 && ks[0] == "tokenKindNewline" {
+						continue
+					}
+				} else {
+					hasDefault = true
+				}
+				for _, b := range f.g.Blocks {
+					if b.Stmt == ast.Stmt(cc) && b.Kind == cfg.KindSwitchCaseBody {
+						check(b, what)
+					}
+				}
+			}
+			if !hasDefault {
+				for _, b := range f.g.Blocks {
+					if b.Stmt == ast.Stmt(sw) && b.Kind == cfg.KindSwitchDone {
+						check(b, "no clause matched")
+					}
+				}
+			}
+			return true
+		})
 	}
 	c.Count("formatter_lookaheads", n)
 	c.Floor("formatter_lookaheads", 1)
@@ -1025,11 +1179,11 @@ func usesTakenToken(info *types.Info, st ast.Stmt) bool {
 			if isMethodCall(x, "tr", "UnNext") {
 				found = true
 			}
-			// a formatter helper that receives the reader continues from this token
-			if id, ok := x.Fun.(*ast.Ident); ok && strings.HasPrefix(id.Name, "format") && len(x.Args) > 0 {
-				if t := info.TypeOf(x.Args[0]); t != nil && strings.HasSuffix(t.String(), ".tokenReader") {
-					found = true
-				}
+			// a helper that receives the reader and starts by using the current
+			// token continues from it; one that starts by taking the next token
+			// does not (the current one is then lost unless written before)
+			if cal := load.Callee(info, x); cal != nil && startsWithCurrentToken(info, cal) {
+				found = true
 			}
 		case *ast.BasicLit:
 			if x.Kind == token.STRING || x.Kind == token.CHAR {
@@ -1059,4 +1213,66 @@ func usesTakenToken(info *types.Info, st ast.Stmt) bool {
 		return !found
 	})
 	return found
+}
+
+
+// startsWithCurrentToken: fn takes the token reader and, on every path, its
+// first token event is a use of the current token (tr.Token(), .concrete,
+// handing the reader to another such function) rather than tr.Next().
+var tokenHelperDecls func(fn *types.Func) *ast.FuncDecl
+var startsCache = map[*types.Func]int{} // 1 = uses current first, 2 = takes first / unknown
+
+func startsWithCurrentToken(info *types.Info, fn *types.Func) bool {
+	if v, ok := startsCache[fn]; ok {
+		return v == 1
+	}
+	startsCache[fn] = 2
+	sig, _ := fn.Type().(*types.Signature)
+	if sig == nil || tokenHelperDecls == nil {
+		return false
+	}
+	takes := false
+	for i := 0; i < sig.Params().Len(); i++ {
+		if strings.HasSuffix(sig.Params().At(i).Type().String(), ".tokenReader") {
+			takes = true
+		}
+	}
+	fd := tokenHelperDecls(fn)
+	if !takes || fd == nil || fd.Body == nil {
+		return false
+	}
+	// first token event in source order along the straight-line prefix of the
+	// body (conservative: any Next() before a use anywhere in the first
+	// statements decides "takes first")
+	res := 0
+	ast.Inspect(fd.Body, func(n ast.Node) bool {
+		if res != 0 {
+			return false
+		}
+		switch x := n.(type) {
+		case *ast.CallExpr:
+			if isMethodCall(x, "tr", "Next") {
+				res = 2
+				return false
+			}
+			if isMethodCall(x, "tr", "Token") {
+				res = 1
+				return false
+			}
+			if cal := load.Callee(info, x); cal != nil && cal != fn && startsWithCurrentToken(info, cal) {
+				res = 1
+				return false
+			}
+		case *ast.SelectorExpr:
+			if x.Sel.Name == "concrete" {
+				res = 1
+				return false
+			}
+		}
+		return true
+	})
+	if res == 1 {
+		startsCache[fn] = 1
+	}
+	return res == 1
 }
